@@ -254,6 +254,14 @@ def probes(ctx):
         ctx.violation({"class": "unset-local-then-indexed-assign-corrupts-absent", "program": "mlr -n put 'end{x = 1; unset x; x[\"a\"] = 1; print typeof(nosuch); print typeof(@y)}'",
                        "observed": o.get("out"), "expected": ["absent", "absent"],
                        "doc": "reference-main-null-data.md: reads of unset variables are absent"})
+    # F5: assignment copies: index-assigning one local must not change another variable, a field, or the constant true
+    o = observe(ctx, 'end{x = 5; y = x; y["k"] = 1; print typeof(x); b = true; b["k"] = 1; print typeof(1 == 1)}', [], False)
+    ctx.count(("probe", "scalar-alias"))
+    if o["class"] != "ok" or o.get("out") != [("s", "int"), ("s", "boolean")]:
+        ctx.violation({"class": "indexed-assign-on-scalar-local-mutates-shared-value",
+                       "program": "mlr -n put 'end{x = 5; y = x; y[\"k\"] = 1; print typeof(x); b = true; b[\"k\"] = 1; print typeof(1 == 1)}'",
+                       "observed": o.get("out"), "expected": ["int", "boolean"],
+                       "doc": "reference-main-maps.md / reference-dsl-variables.md: assignment copies; property statement: arguments and assignments are by value"})
     # F1: for-loops bind from a copy of the map made before the loop
     o = observe(ctx, 'end{@m = {"a":1,"b":2}; for (k,v in @m) { if (k == "a") {@m["c"] = 3; unset @m["b"]} print k.":".v } }', [], False)
     ctx.count(("probe", "loop-copy"))
